@@ -137,3 +137,29 @@ sess_h!(kf_c02_rollback_leaves_property_still_fails, {
     assert!(got.is_none(), "a property written inside a rolled-back transaction is still there");
     std::mem::forget((got, st, txm));
 });
+
+//@ property: C02
+//@ tier: quick
+//@ cap_s: 1500
+//@ mem_gb: 14
+//@ stubs: parking_lot slow paths, alloc::fmt::format, RandomState::new
+//@ encodes: as c02_rollback_hides_created_node, two nodes created in the rolled-back transaction
+//@ symbolic: how many unrelated transactions committed before (0 or 1)
+//@ bound: one writer transaction creating TWO unlabelled nodes, then rollback; a later reader outside a transaction
+//@ oracle: after rollback neither node is visible (every version chain the transaction touched is cleaned, not only the first)
+sess_h!(c02_rollback_hides_both_created_nodes, {
+    let st = LpgStore::new();
+    let txm = TransactionManager::new();
+    if kani::any() { let t = txm.begin(); let r = txm.commit(t); std::mem::forget(r); }
+    let w = txm.begin();
+    let (e, t) = ctx(&txm, Some(w));
+    let n1 = st.create_node_versioned(&[], e, t);
+    let n2 = st.create_node_versioned(&[], e, t);
+    st.discard_uncommitted_versions(w);
+    let r = txm.abort(w); std::mem::forget(r);
+    let (e2, t2) = ctx(&txm, None);
+    let g = st.get_node_versioned(n1, e2, t2); assert!(g.is_none(), "the first node of a rolled-back transaction is still visible"); std::mem::forget(g);
+    let g = st.get_node_versioned(n2, e2, t2); assert!(g.is_none(), "the second node of a rolled-back transaction is still visible"); std::mem::forget(g);
+    kani::cover!(true);
+    std::mem::forget((st, txm));
+});
